@@ -11,6 +11,7 @@ import (
 	"fmt"
 	"math/big"
 	"os"
+	"regexp"
 	"runtime"
 	"strings"
 	"sync"
@@ -99,8 +100,12 @@ func obsOf(v any) string {
 	}
 }
 
-// evalAll fills in obs for every case, in parallel batches, order preserved.
-func evalAll(cases []*tcase) {
+var nanRE = regexp.MustCompile(`d[7f]ff[0-9a-f]{13}`)
+
+func evalAll(cases []*tcase) { evalAllExpr(cases, fqExpr) }
+
+// evalAllExpr fills in obs for every case, in parallel batches, order preserved.
+func evalAllExpr(cases []*tcase, expr string) {
 	const batch = 128
 	nw := runtime.NumCPU()
 	if nw > 8 {
@@ -122,7 +127,7 @@ func evalAll(cases []*tcase) {
 				for _, c := range cases[j.lo:j.hi] {
 					ins = append(ins, []any{c.format, mkBinary(c.in)})
 				}
-				res := ev.run(fqExpr, ins)
+				res := ev.run(expr, ins)
 				for i, r := range res {
 					cases[j.lo+i].obs = obsOf(r)
 				}
@@ -256,6 +261,19 @@ func main() {
 		o.Stat("random_values_"+f.name, nRandom)
 	}
 	evalAll(cs)
+	nText := 40
+	if cfg.Thorough() {
+		nText = 1500
+	}
+	textWanted := len(want) == 0
+	for _, f := range []string{"text", "json", "jsonl", "yaml", "toml", "xml", "csv", "bson"} {
+		if want[f] {
+			textWanted = true
+		}
+	}
+	if textWanted {
+		runText(o, r, nText, want)
+	}
 	samples := 0
 	for _, c := range cs {
 		op := fmt.Sprintf("%s %s %s %s", c.format, hlib.Hex(c.in), c.kind, c.src)
